@@ -15,8 +15,8 @@ META = {
             "Lenient <= SemiStrict <= Strict; any computation that consults the mode only by asking those helpers is "
             "monotone, mode-independent in its result, and a stricter mode can only add the UndefinedError of one of its "
             "questions (comp_mono, comp_agree, comp_only_adds_undefined_errors); the VM model (about 60 instructions incl. "
-            "macros, call blocks, caller(), kwargs, loop.*, includes of named templates, blocks without inheritance, "
-            "running nested calls inside the machine) is built from such computations, so any run that succeeds under a mode "
+            "macros, call blocks, caller(), kwargs, loop.*, includes of named templates, blocks, template inheritance with "
+            "super(), running nested calls inside the machine) is built from such computations, so any run that succeeds under a mode "
             "ends in the identical state and observed output under every weaker mode, for every choice of the abstract "
             "mode-independent operations (mono_vm, mono_programs over real instruction streams accepted by the decidable "
             "inFragment check that the driver evaluates per program; vm_strict_failure: an error added by a stricter mode is "
@@ -31,16 +31,20 @@ META = {
             "evaluated on the real engine: pairwise monotonicity of the four results of every case, plus the documented "
             "matrix on dedicated site templates.",
     "design_ref": "DESIGN.md §3 C12",
-    "level_note": "Trusted: Lean kernel; lib/tables/c12.py (translator: helper match rows, inline mode tests, helper-call "
-                  "lists per instruction arm and per builtin, ArgType impl classification, builtin signatures and their "
-                  "reachability of the mode by regex + local call graph). The mode-independent operations are either hand "
-                  "models validated by the correspondence stream only, or abstract parameters (Ops): for the builtins whose "
-                  "source reaches the mode and that are NOT modelled by hand (escape/e, replace, sort, batch, slice, unique, "
-                  "select/reject(attr), map, format, float) the theorems assume that the body consults the mode only through "
-                  "the helper questions (nested filter/test calls and Environment::format included) -- monotonicity of these "
-                  "is validated by the differential streams, not derived from their source. Outside the model: template "
-                  "inheritance (extends/super), recursive loops, `*args` calls, from-imports, tuples, floats, safe strings, "
-                  "auto-escaping, filters/tests added by the embedding application.",
+    "level_note": "Trusted: Lean kernel; lib/tables/c12.py (translator: helper match rows, inline mode tests, every mention "
+                  "of the mode in minijinja/src + minijinja-contrib/src with its class, helper-call lists per instruction arm and "
+                  "per builtin, ArgType impl classification, builtin signatures and their reachability of the mode by regex + "
+                  "local call graph). The mode-independent operations are hand models validated by the correspondence stream "
+                  "only, or abstract parameters (Ops). The 26 builtins whose source reaches the mode are hand-modelled as "
+                  "their helper questions in source order (nested filter/test calls included) followed by an abstract "
+                  "mode-independent rest; that question structure is tied to the source by the extracted per-builtin helper "
+                  "lists and validated against the engine for every call of the call/sweep streams, not derived from the "
+                  "source. Outside the model (oracle streams only): auto-escaping and safe strings (join_safe / State::format "
+                  "/ escape with custom formats go through Environment::format), recursive loops, `*args` calls, from-imports, "
+                  "tuples, floats, custom objects, filters/tests added by the embedding application, the public Rust API "
+                  "(api stream). Observation (not a violation of the statement): slicing an undefined fails under Strict only, "
+                  "SemiStrict gives [] like Lenient -- monotone, and slicing is not a row of the documented matrix, but the "
+                  "one-line description of SemiStrict ('like Strict except truthiness') does not mention it.",
 }
 
 MODES = ["chainable", "lenient", "semistrict", "strict"]
@@ -86,6 +90,8 @@ def cls(r):
 
 
 def builtin_of(stream, label):
+    if stream.startswith("po-"):
+        stream = stream[3:]
     if stream in ("call", "sweep", "callh", "sweeph"):
         p = label.split(":")
         return p[0] + ":" + p[1]
@@ -140,8 +146,8 @@ def run(r):
               "ternary with and without else, comparisons and chains, in, ~, + - *, tests, filters; the `rich` half adds macros, "
               "filter blocks, loop.*, range, dict(**), more builtins). Each case = 4 renders. A case is non-trivial when the "
               "four results are not all identical (the mode matters).")
-    r.assumptions = ["the bodies of the mode-reaching builtins that are not modelled by hand consult the mode only through the helper "
-                     "questions (validated on the enumerated operand pool, not proved from their source)",
+    r.assumptions = ["the question structure of the mode-reaching builtins is as hand-modelled (tied by the extracted helper-call lists, "
+                     "validated on the enumerated operand pool, not proved from their source)",
                      "the extracted signatures / ArgType classification / reachability tables describe the source (regex translator)",
                      "the mode-independent part of each modelled instruction is as validated by the correspondence on the generated programs",
                      "Environment::set_undefined_behavior is the only way the mode reaches the engine (state.undefined_behavior())"]
@@ -225,6 +231,22 @@ def run(r):
         r.broken.append(f"filters with a safe-string branch that the auto-escape stream does not exercise: {not_html}")
     r.extra["mode_sensitive_builtins"] = sorted(b for b, s in sensitivity.items() if any(len(set(x)) > 1 for x in s))
     r.extra["mode_insensitive_builtins"] = sorted(b for b, s in sensitivity.items() if all(len(set(x)) == 1 for x in s))
+
+    # the same cases with minijinja's `preserve_order` feature (IndexMap-backed maps): monotonicity only
+    if r.tier == "thorough":
+        exe_po = r.cargo_build("c12", features=["preserve_order"])
+        if exe_po is not None:
+            rc, out_po, err = r.harness(exe_po, ["gen", "quick"])
+            if rc != 0:
+                r.broken.append(f"harness c12 (preserve_order) exited {rc}: {err[-300:]}")
+            else:
+                for line in out_po.splitlines():
+                    f = line.split("\t")
+                    if len(f) != 9:
+                        continue
+                    r.count("po\t" + f[0] + "\t" + f[3], nontrivial=len(set(f[4:8])) > 1)
+                    r.hist["stream"]["preserve_order:" + f[0]] += 1
+                    judge(r, "po-" + f[0], f[2] if f[0] in ("call", "sweep", "callh", "sweeph") else "po", f[3], f[4:8])
 
     # correspondence: the Lean VM model on the real instruction streams
     model = r.driver("drive_c12", "\n".join(model_in) + "\n")
